@@ -60,6 +60,7 @@ def config_dict(cset):
     }
     constr = {"decay": {"fix_chain_idx": 0, "fix_chain_val": 1.0}}
     truth = {R2r: 0.8, R2i: 0.7, R3r: 0.6, R3i: -1.1}
+    start = None
     if cset == "fixed":
         # a fixed NEGATIVE radius and a fixed phase: standard_complex must leave both alone
         constr["fix_var"] = {R3r: -0.6, R2i: 0.7}
@@ -70,16 +71,18 @@ def config_dict(cset):
     elif cset == "bounds":
         # two-sided, lower-only, upper-only, and a bounded radius whose range is negative
         part["R_BC"].update({"float": "mg", "mass_min": 0.4, "mass_max": 0.6, "width_min": 0.01})
-        part["R_BD"].update({"float": "m", "mass_max": 0.7})
+        # the upper bound of R_BD_mass (0.58) excludes the value the data were generated with (0.6): the bound is ACTIVE
+        part["R_BD"].update({"float": "m", "mass_max": 0.58})
         constr["var_range"] = {R3r: [-2.0, -0.1]}
         truth = {R2r: 0.8, R2i: 0.7, R3r: -0.6, R3i: -1.1 + math.pi, "R_BC_mass": 0.5, "R_BC_width": 0.05, "R_BD_mass": 0.6}
+        start = dict(truth, R_BD_mass=0.57)
     elif cset == "gauss":
         part["R_BC"].update({"float": "m", "gauss_constr": {"m": 0.01}})
         truth = dict(truth, R_BC_mass=0.5)
     d = {"data": {"dat_order": ["B", "C", "D"]},
          "decay": {"A": [["R_BC", "D"], ["R_BD", "C"], ["R_CD", "B"]], "R_BC": ["B", "C"], "R_BD": ["B", "D"], "R_CD": ["C", "D"]},
          "particle": part, "constrains": constr}
-    return d, truth
+    return d, truth, (start or truth)
 
 
 # =========================================================================== worker (runs the implementation)
@@ -104,7 +107,7 @@ def worker_main(infile, outfile):
         return contextlib.redirect_stdout(io.StringIO())
 
     cset = spec["cset"]
-    cdict, truth = config_dict(cset)
+    cdict, truth, start0 = config_dict(cset)
     with quiet():
         config = ConfigLoader(json.loads(json.dumps(cdict)))
         config.get_amplitude()
@@ -166,7 +169,7 @@ def worker_main(infile, outfile):
     for ci, (method, maxiter) in enumerate(spec["cells"]):
         rec = {"method": method, "maxiter": maxiter, "cset": cset, "post": {}, "detail": {}}
         t0 = time.time()
-        start = {k: v * rs.uniform(0.95, 1.05) for k, v in truth.items() if k in vm.trainable_vars}
+        start = {k: v * (rs.uniform(0.99, 1.01) if k in bd_all else rs.uniform(0.95, 1.05)) for k, v in start0.items() if k in vm.trainable_vars}
         with quiet():
             config.set_params(start)
         rec["start"] = start
@@ -295,22 +298,28 @@ def state_term(out, rec, extra_names):
 
 
 def model_goals(ctx, out, rec, cid):
+    """one goal per cell (the model's fit step is evaluated once, every variable compared) + the per-variable goals
+    that are only run for a cell whose combined goal fails (to name the variable)"""
     from rcases import _tol
     extra = [k for k in out["bounds"] if k not in out["names"]]
     s0, idx = state_term(out, rec, extra)
     bd = "[" + "; ".join("(%d%%nat, %s)" % (idx[k], bound_term(v)) for k, v in out["bounds"].items()) + "]"
     opt = "(fun _ => ([%s], %s))" % ("; ".join(Rq(x) for x in rec["xstar"]), Rq(rec["fstar"]))
     term = "(fit %s %s %s %s)" % (branch_of(rec["method"]), opt, bd, s0)
-    goals = []
+    atoms, single = [], []
     for i, nm in enumerate(out["names"]):
         y = rec["after"][i]
         t = _tol(y, 1e-11, 1e-13)
-        goals.append(("%s_v%d" % (cid, i), "(Rabs (read (fst %s) %d%%nat - %s) <= %s)%%R" % (term, i, Rq(y), Rq(t)), TAC,
-                      {"variable": nm, "impl_final": y}))
+        atoms.append("(Rabs (read (fst P) %d%%nat - %s) <= %s)" % (i, Rq(y), Rq(t)))
+        single.append(("%s_v%d" % (cid, i), "(Rabs (read (fst %s) %d%%nat - %s) <= %s)%%R" % (term, i, Rq(y), Rq(t)), TAC,
+                       {"variable": nm, "impl_final": y}))
     t = _tol(rec["min_nll"], 1e-12, 1e-300)
-    goals.append(("%s_min" % cid, "(Rabs (r_min (snd %s) - %s) <= %s)%%R" % (term, Rq(rec["min_nll"]), Rq(t)), TAC,
-                  {"variable": "min_nll", "impl_final": rec["min_nll"]}))
-    return goals
+    atoms.append("(Rabs (r_min (snd P) - %s) <= %s)" % (Rq(rec["min_nll"]), Rq(t)))
+    single.append(("%s_min" % cid, "(Rabs (r_min (snd %s) - %s) <= %s)%%R" % (term, Rq(rec["min_nll"]), Rq(t)), TAC,
+                   {"variable": "min_nll", "impl_final": rec["min_nll"]}))
+    whole = (cid, "(let P := %s in %s)%%R" % (term, " /\\ ".join(atoms)), "cbv [%s]; repeat split; rclose" % UNF,
+             {"variable": "(all %d variables and min_nll)" % len(out["names"]), "impl_final": None})
+    return whole, single
 
 
 POST_FP = {"state_is_result": "state!=result", "min_is_nll": "min!=nll(state)", "not_above_start": "min>start",
@@ -346,6 +355,7 @@ def run(ctx):
         procs.append((tag, outf, subprocess.Popen([sys.executable, "-W", "ignore", os.path.abspath(__file__), "--worker", inf, outf],
                                                   stdout=log, stderr=subprocess.STDOUT, env=env, cwd=ctx.dir)))
     goals = []
+    singles = {}
     ncell = 0
     for tag, outf, p in procs:
         try:
@@ -386,15 +396,29 @@ def run(ctx):
             if rec.get("xstar") is None:
                 ctx.fail("capture", cid, "optimiser answer not captured", inp=cell, site="harness", fingerprint="capture", failing_input=cell)
                 continue
-            for g in model_goals(ctx, out, rec, cid):
-                goals.append(g + (cell, br))
-    ctx.log("cells", ncell, "model goals", len(goals))
-    res = common.coq_cases(ctx, "fit", HEADER, [g[:3] for g in goals], per_file=12, case_timeout=60)
+            whole, single = model_goals(ctx, out, rec, cid)
+            goals.append(whole + (cell, br))
+            singles[cid] = [g + (cell, br) for g in single]
+    ctx.log("cells", ncell, "model goals (one per cell, %d compared values each)" % (len(singles[next(iter(singles))]) if singles else 0), len(goals))
+    res = common.coq_cases(ctx, "fit", HEADER, [g[:3] for g in goals], per_file=3, case_timeout=120)
+    second = []
     for cid, stmt, tac, meta, cell, br in goals:
         if res[cid] != "OK":
-            ctx.fail("fit_step", cid, "model fit step on the implementation's x* disagrees with the implementation's final value of %s (%s)" % (meta["variable"], res[cid]),
-                     inp=cell, site=SITE[br], fingerprint="model:" + ("min" if meta["variable"] == "min_nll" else "state"),
-                     failing_input=dict(cell, variable=meta["variable"], impl_final=meta["impl_final"], coq_result=res[cid]))
+            second += singles[cid]
+    if second:
+        # name the variable(s): per-variable goals of the failing cells only
+        res2 = common.coq_cases(ctx, "fitvar", HEADER, [g[:3] for g in second], per_file=13, case_timeout=60)
+        named = set()
+        for cid, stmt, tac, meta, cell, br in second:
+            if res2[cid] != "OK":
+                named.add(cid.rsplit("_", 1)[0])
+                ctx.fail("fit_step", cid, "model fit step on the implementation's x* disagrees with the implementation's final value of %s (%s)" % (meta["variable"], res2[cid]),
+                         inp=cell, site=SITE[br], fingerprint="model:" + ("min" if meta["variable"] == "min_nll" else "state"),
+                         failing_input=dict(cell, variable=meta["variable"], impl_final=meta["impl_final"], coq_result=res2[cid]))
+        for cid, stmt, tac, meta, cell, br in goals:
+            if res[cid] != "OK" and cid not in named:
+                ctx.fail("fit_step", cid, "combined model goal of the cell not proved (%s) although every single variable goal is" % res[cid], inp=cell, site=SITE[br],
+                         fingerprint="model:cell", failing_input=dict(cell, coq_result=res[cid]))
     return common.finish(ctx, search=None, technique=TECHNIQUE, extra_assumptions=[
         "the optimisers (scipy.optimize.minimize, iminuit.Minuit) are oracles: any returned point is accepted by the theorems; the contracts "
         "f* = NLL(T(x*)), f* <= NLL(start), box-constrained answers for L-BFGS-B/iminuit are checked on every real fit, not proved",
@@ -407,8 +431,29 @@ def run(ctx):
 
 
 def replay(rep):
-    print(json.dumps(rep, indent=1, default=str)[:6000])
-    return 1 if rep.get("failing_input") else 0
+    """re-run the stored (method x constraint-set) cell in a fresh session and print its post-conditions"""
+    fi = rep.get("failing_input") or {}
+    print(json.dumps({k: v for k, v in rep.items() if k != "broken"}, indent=1, default=str)[:3000])
+    if "method" not in fi or "constraint_set" not in fi:
+        return 1 if fi else 0
+    import tempfile
+    d = tempfile.mkdtemp(prefix="c08_replay_", dir=os.path.join(os.path.dirname(os.path.dirname(HERE)), "build"))
+    inf, outf = os.path.join(d, "job.json"), os.path.join(d, "out.json")
+    json.dump({"cset": fi["constraint_set"], "seed": int(fi.get("seed", 17)), "ndata": 60, "nphsp": 300,
+               "cells": [[fi["method"], fi.get("maxiter")]], "tmpdir": d}, open(inf, "w"))
+    r = subprocess.run([sys.executable, "-W", "ignore", os.path.abspath(__file__), "--worker", inf, outf], capture_output=True, text=True, cwd=d)
+    if r.returncode != 0 or not os.path.exists(outf):
+        print("worker failed:", (r.stdout + r.stderr)[-1500:])
+        return 1
+    rec = json.load(open(outf))["cells"][0]
+    if "exception" in rec:
+        print("ConfigLoader.fit raised", rec["exception"])
+        return 1
+    print("post-conditions now (fresh session, this cell only):", json.dumps(rec["post"], indent=1))
+    for k, ok in rec["post"].items():
+        if not ok:
+            print("  ", k, json.dumps(rec["detail"][k], default=str)[:500])
+    return 0 if all(rec["post"].values()) else 1
 
 
 if __name__ == "__main__":
